@@ -14,6 +14,11 @@ package obfs
 // len(reassembly), len(perSource) and perSource[src] are recorded, plus the evicted key when the
 // table was at its cap, plus a dump of the table at the end.
 // The property's own verdict (ok/why) is evaluated on the implementation alone.
+// The TTL and no-lock-out clauses are evaluated against the harness's OWN record of when each pending message was
+// first seen (entry identity = the *reassemblyEntry pointer, time = the bubble's clock at the feeding step), never
+// against the implementation's deadline field: an incomplete message first seen at t must be gone after the first
+// sweep later than t + TTL whatever arrived in between (replayed duplicates, further chunks, frames with another
+// chunk count), and a source is refused only while it has 8 pending messages that are not yet due.
 
 import (
 	"bytes"
@@ -387,6 +392,66 @@ func c14Seq(c c14Case, res map[string]any) {
 	steps := make([][]int64, 0, len(c.Ops))
 	delivered := map[[2]int]bool{}
 	period := int64(geckoReassemblyTTL / 2)
+	ttl := int64(geckoReassemblyTTL)
+	// the harness's own record of the pending messages: who they are (entry pointer), when they were first seen,
+	// how many datagrams were fed under their key since, and whether a sweep later than first-seen + TTL has passed
+	type bornT struct {
+		e       *reassemblyEntry
+		t       int64
+		replays int
+		lastRep int64
+		overdue bool
+	}
+	born := map[reassemblyKey]*bornT{}
+	var whys []string
+	failAll := func(s string) {
+		fail(s)
+		if len(whys) < 6 {
+			whys = append(whys, s)
+		}
+	}
+	defer func() { res["whys"] = whys }()
+	// note the entry under k (called after every datagram fed under k; entries are only ever created that way)
+	track := func(k reassemblyKey) {
+		now := int64(time.Since(t0))
+		g.mu.Lock()
+		e, ok := g.reassembly[k]
+		g.mu.Unlock()
+		if !ok {
+			delete(born, k)
+			return
+		}
+		if b, ok := born[k]; ok && b.e == e {
+			b.replays++
+			b.lastRep = now
+			return
+		}
+		born[k] = &bornT{e: e, t: now}
+	}
+	// after a sweep at time T (gc tick or direct gcExpired): nothing first seen before T - TTL may remain
+	ttlFlagged := false
+	sweepCheck := func(T int64, what string, si int) {
+		now := int64(time.Since(t0))
+		g.mu.Lock()
+		defer g.mu.Unlock()
+		for k, e := range g.reassembly {
+			b, ok := born[k]
+			if !ok || b.e != e {
+				born[k] = &bornT{e: e, t: now}
+				continue
+			}
+			if T > b.t+ttl {
+				b.overdue = true
+				if !ttlFlagged {
+					ttlFlagged = true
+					failAll("incomplete message (source " + k.addr + ", id " + strconv.Itoa(int(k.msgID)) + ") first seen at " + strconv.FormatInt(b.t, 10) +
+						" ns is still pending after the " + what + " at " + strconv.FormatInt(T, 10) + " ns (TTL " + strconv.FormatInt(ttl, 10) + " ns); " +
+						strconv.Itoa(b.replays) + " further datagram(s) arrived under its key, the last at " + strconv.FormatInt(b.lastRep, 10) +
+						" ns (step " + strconv.Itoa(si) + ")")
+				}
+			}
+		}
+	}
 	for si, op := range c.Ops {
 		if op.D > 0 {
 			time.Sleep(time.Duration(op.D))
@@ -403,6 +468,7 @@ func c14Seq(c c14Case, res map[string]any) {
 					}
 				}
 				g.mu.Unlock()
+				sweepCheck(last, "gc tick", si)
 			}
 		}
 		row := []int64{0, 0, 0, 0, 0, 0, 0}
@@ -422,6 +488,7 @@ func c14Seq(c c14Case, res map[string]any) {
 				}
 			}
 			g.mu.Unlock()
+			sweepCheck(op.T, "gcExpired call", si)
 		case "f", "x":
 			fs := frames[op.M]
 			if len(fs) == 0 {
@@ -450,8 +517,12 @@ func c14Seq(c c14Case, res map[string]any) {
 					g.mu.Lock()
 					if _, exists := g.reassembly[wantKey]; !exists {
 						n := 0
-						for k := range g.reassembly {
+						for k, e := range g.reassembly {
 							if k.addr == wantKey.addr {
+								// an entry that a sweep should already have removed does not count against the source
+								if b, ok := born[k]; ok && b.e == e && b.overdue {
+									continue
+								}
 								n++
 							}
 						}
@@ -530,8 +601,11 @@ func c14Seq(c c14Case, res map[string]any) {
 				_, present := g.reassembly[wantKey]
 				g.mu.Unlock()
 				if !present {
-					fail("source " + src.String() + " refused although it holds fewer than 8 pending messages (step " + strconv.Itoa(si) + ")")
+					failAll("source " + src.String() + " refused although it holds fewer than 8 pending messages that are not yet due (step " + strconv.Itoa(si) + ")")
 				}
+			}
+			if len(tr) >= 2 && tr[0]&0x80 != 0 {
+				track(reassemblyKey{addr: src.String(), msgID: tr[1]})
 			}
 			g.mu.Lock()
 			row[4] = int64(g.perSource[src.String()])
